@@ -6,6 +6,7 @@ import srcgen
 import lang_matrix as LM
 import pemodel
 from checks import _lang as L
+from checks import c16 as C16
 
 LEVEL = "proof"
 
@@ -158,6 +159,10 @@ def run(ck):
         compared += 1
         if base != got and shape_changed and not (base.startswith("OK") and got.startswith("OK")) and "c17.discarded_but_evaluated" in kf:
             ck.known_finding(kf["c17.discarded_but_evaluated"])
+            continue
+        if base != got and "c16.let_var_in_if" in kf and C16.let_var_in_if(r["prog"]):
+            # D29: the evaluator loses let-bound names inside if branches, so uses reached through them are not seen
+            ck.known_finding(kf["c16.let_var_in_if"])
             continue
         if base != got:
             direct.append({"clause": "a parameter reported as unused changes the program's behaviour", "parameter": low(n), "source": src,
